@@ -1,6 +1,7 @@
 import Driver.Proto
 import PqModel.Variant
 import PqModel.VariantShred
+import PqModel.VariantLevels
 
 /-! Ops of property C19 (variant encoding).
 
@@ -18,6 +19,10 @@ v ::= n | t | f | i8:<int> | i16:<int> | i32:<int> | i64:<int> | f32:<hex8 bits>
 * `variant.canon <v>` → `ok <v with object fields sorted by key>`
 * `variant.shredcols <schema> <v>` → `ok <row metadata hex> <col>;<col>;…`: the non-null values every leaf
   column below the variant group receives (`x<hex>` bytes, `i32:`/`i64:`/`f32:`/`f64:`/`b0|b1`), `-` = none
+* `variant.cells <g> <r> <rep> <schema> <v>` → `ok <row metadata hex> <col>;<col>;…`: the Dremel cells
+  (`<def>.<rep>.<payload>`, payload `-` = null) every leaf column below the variant group receives for one
+  occurrence at definition level `g` / repetition depth `r` of the enclosing schema (level MIRROR `emit`)
+* `variant.ofcol <ptype> <leaf value>` → `ok <v>` / `err`: MIRROR of `parquetToVariantValue`
 * `variant.shred <schema> <v>` → `ok <shredded text> <reconstructed v> <non-null count per leaf column>`
   (logical shredding model) -/
 namespace Driver.Ops.C19
@@ -245,6 +250,41 @@ def showLeaf : LeafVal → String
   | .enc b => "x" ++ hexE b
   | .col c => showCol c
 
+mutual
+/-- the primitive type of every leaf column below a variant group (`none` = a `value` column) -/
+def colTypes : Schema → List (Option PType)
+  | .untyped => [none]
+  | .prim t => [none, some t]
+  | .list e => none :: colTypes e
+  | .obj fs => none :: colTypesFields fs
+def colTypesFields : List (Key × Schema) → List (Option PType)
+  | [] => []
+  | (_, s) :: fs => colTypes s ++ colTypesFields fs
+end
+
+def showCell (d : Dict) (t : Option PType) (c : Cell) : String :=
+  s!"{c.dl}.{c.rl}." ++ match c.pay with
+    | .null => "-"
+    | .val v => "x" ++ hexE (enc d v)
+    | .typ p => match t.bind (fun t => toCol t p) with
+      | some cv => showCol cv
+      | none => "?"
+
+def showCols (d : Dict) : List (Option PType) → List Col → List String
+  | t :: ts, c :: cs => Driver.showList (showCell d t) c :: showCols d ts cs
+  | _, _ => []
+
+def parseColVal? (s : String) : Option ColVal :=
+  if s.startsWith "x" then (hexOpt? (String.ofList (s.toList.drop 1))).map .bytes
+  else match s.splitOn ":" with
+    | ["i32", x] => (bv? 32 x).map .i32
+    | ["i64", x] => (bv? 64 x).map .i64
+    | ["f32", x] => if x.length = 8 then (hexNat? x).map fun n => .f32 (BitVec.ofNat 32 n) else none
+    | ["f64", x] => if x.length = 16 then (hexNat? x).map fun n => .f64 (BitVec.ofNat 64 n) else none
+    | ["b0"] => some (.bool false)
+    | ["b1"] => some (.bool true)
+    | _ => none
+
 def handle (toks : List String) : Option String :=
   match toks with
   | ["variant.enc", txt] => some <|
@@ -275,6 +315,20 @@ def handle (toks : List String) : Option String :=
       match unshred s sl with
       | some r => s!"ok {showSlot sl} {showV r} {cnt}"
       | none => s!"ok {showSlot sl} invalid {cnt}"
+    | _, _ => "bad-op"
+  | ["variant.cells", g, r, rep, sch, txt] => some <|
+    match g.toNat?, r.toNat?, rep.toNat?, parseSchema? sch, parseValue? txt with
+    | some g, some r, some rep, some s, some v =>
+      let d := metaOf v
+      let cols := emit s g r rep (shred s v)
+      s!"ok {toHex (encodeMeta d)} {";".intercalate (showCols d (colTypes s) cols)}"
+    | _, _, _, _, _ => "bad-op"
+  | ["variant.ofcol", t, c] => some <|
+    match ptypeOfString t, parseColVal? c with
+    | some t, some c =>
+      match ofCol t c with
+      | some p => s!"ok {showPrim p}"
+      | none => "err"
     | _, _ => "bad-op"
   | ["variant.shredcols", sch, txt] => some <|
     match parseSchema? sch, parseValue? txt with
